@@ -256,7 +256,7 @@ def query_list(spec):
         return qs + [("inverse",), ("tsolve",)]
     if spec.profile in ("interp", "kernel"):
         return qs
-    qs += [("cholesky", False), ("cholesky", True), ("svd",), ("eigh",), ("eigvalsh",), ("solve",), ("logdet",),
+    qs += [("cholesky", False), ("cholesky", True), ("hook_cholesky", False), ("hook_cholesky", True), ("svd",), ("eigh",), ("eigvalsh",), ("solve",), ("logdet",),
            ("iql",), ("inv_quad",), ("sample",)]
     for m in ROOT_METHODS:
         for how in (("none",) if m is None else ()) + ("kw", "pos"):
@@ -309,9 +309,13 @@ def run_query(op, q, rhs):
     if kind == "cholesky":
         r = op.cholesky(upper=q[1])
         return {"sig": f"op{tuple(r.shape)}", "chol": r.to_dense(), "upper": q[1]}
+    if kind == "hook_cholesky":      # the memoised hook itself, as overrides of other classes call it
+        r = op._cholesky(upper=q[1])
+        return {"sig": f"op{tuple(r.shape)}", "chol": r.to_dense(), "upper": q[1]}
     if kind == "root":
         r = mcall(op.root_decomposition, q[1], q[2])
-        return {"sig": f"op{tuple(r.shape)}", "psd": r.to_dense(), "root_tri": type(r.root).__name__ == "TriangularLinearOperator"}
+        # when the answer is the operator itself (Root/Chol), densify a cache-free copy: observing must not write op's cache
+        return {"sig": f"op{tuple(r.shape)}", "psd": (deep_fresh(r) if r is op else r).to_dense(), "root_tri": type(r.root).__name__ == "TriangularLinearOperator"}
     if kind == "rootinv":
         r = mcall(op.root_inv_decomposition, q[1], q[2])
         return {"sig": f"op{tuple(r.shape)}", "psdinv": r.to_dense()}
@@ -388,6 +392,11 @@ def tol_for(label, logs_step, sticky):
 
 
 def close(a, b, tol):
+    # leading singleton batch dims are a shape matter (other properties), not a cache matter: compare without them
+    while a.dim() > b.dim() and a.shape[0] == 1:
+        a = a[0]
+    while b.dim() > a.dim() and b.shape[0] == 1:
+        b = b[0]
     if a.shape != b.shape:
         return False, f"shape {tuple(a.shape)} vs {tuple(b.shape)}"
     if not torch.isfinite(a).all():
@@ -453,7 +462,9 @@ UNIQUE = ("dense", "diag", "matmul", "chol", "evals", "solve", "logdet", "inv_qu
 
 def compare_fresh(obs, fobs, logs_step, flogs, sticky):
     fails = []
-    if obs["sig"] != fobs["sig"]:
+    import re as _re
+    norm = lambda t: _re.sub(r"\((?:1, )+", "(", t)  # noqa: E731  leading singleton batch dims: not a cache matter
+    if norm(obs["sig"]) != norm(fobs["sig"]):
         fails.append(f"structure differs from a fresh copy: {obs['sig']} vs fresh {fobs['sig']}")
         return fails
     noisy = {"cg", "lanczos"} & (set(logs_step) | set(flogs))
@@ -583,7 +594,15 @@ def model_profile(op):
         return "base"
     if t is O.SumLinearOperator:
         return "sum"
+    if t is O.DiagLinearOperator:
+        return "diag"
+    if t is O.CholLinearOperator and not getattr(op, "upper", False):
+        return "chol"
     return None
+
+
+KEYS_ONLY = ("diag", "chol")
+UNMODELLED_NAMES = ("size", "fn:_diagonal", "fn:inverse")
 
 
 STAR = ("svd", "eigh", "eigvalsh", "iql", "logdet", "sample", "solve", "inv_quad", "matmul", "diagonal", "inverse", "precond", "tsolve")
@@ -593,8 +612,8 @@ def q_line(q, st, n):
     """History step -> driver line.  Settings travel with every line (the model is a function of them)."""
     s = f"{st['mcs']} {1 if st['frd'] else 0} {1 if st['flp'] else 0} {1 if st['fs'] else 0}"
     m = "-" if len(q) < 3 or q[2] is None else q[2]
-    if q[0] == "cholesky":
-        return f"q {s} cholesky {1 if q[1] else 0}"
+    if q[0] in ("cholesky", "hook_cholesky"):
+        return f"q {s} {q[0]} {1 if q[1] else 0}"
     if q[0] in ("root", "rootinv", "diagz"):
         return f"q {s} {q[0]} {q[1]} {m}"
     return f"q {s} {q[0]}"
@@ -670,6 +689,9 @@ def templates(spec):
     # cholesky orientation: lower then upper then lower; upper first
     t.append([(DF, Q("cholesky", False)), (DF, Q("cholesky", True)), (DF, Q("cholesky", False)), (DF, Q("solve")), (DF, Q("logdet"))])
     t.append([(DF, Q("cholesky", True)), (DF, Q("cholesky", False)), (DF, Q("root", "none", None)), (DF, Q("iql")), (DF, Q("cholesky", True))])
+    t.append([(DF, Q("hook_cholesky", False)), (DF, Q("hook_cholesky", True)), (DF, Q("cholesky", True)), (DF, Q("cholesky", False)),
+              (DF, Q("hook_cholesky", True)), (DF, Q("hook_cholesky", False)), (DF, Q("solve"))])
+    t.append([(DF, Q("hook_cholesky", True)), (DF, Q("hook_cholesky", False)), (DF, Q("root", "none", None)), (DF, Q("iql"))])
     # root_decomposition method variants never confused
     for a, b in (("cholesky", "symeig"), ("symeig", "lanczos"), ("lanczos", "cholesky"), ("svd", "pivoted_cholesky"), ("diagonalization", "cholesky")):
         t.append([(DF, Q("root", "kw", a)), (DF, Q("root", "kw", b)), (DF, Q("root", "none", None)), (DF, Q("root", "pos", a)), (DF, Q("root", "kw", a))])
@@ -772,6 +794,9 @@ class Runner:
             # a cached diagonalization redirects `_choose_root_method` into a path that is already invalid on a
             # fresh object of this class (another property's defect): do not poison histories with it
             bad |= {q for q in query_list(spec) if q[0] == "diagz"}
+        # an operator whose own matmul / diagonal disagree with its to_dense (e.g. Chol(upper), D01) makes every wrapper
+        # built on it inconsistent for reasons unrelated to caching: its derived objects are exercised but not judged
+        spec.inconsistent = ("matmul",) in bad or ("diagonal",) in bad
         self.excluded[spec.cls] = bad
         return bad
 
@@ -824,7 +849,26 @@ class Runner:
                         env.tap.items = []
                 if exc is not None or fexc is not None:
                     if exc is not None and fexc is None:
-                        fails.append((cell, f"step {si} settings={st}: raised {type(exc).__name__}: {str(exc)[:120]} but a fresh copy answers"))
+                        # is the exception caused by cached state?  retry on a shallow copy of the SAME object without caches
+                        import copy
+                        twin = copy.copy(op)
+                        twin._memoize_cache = {}
+                        for a_ in ("_q_cache", "_r_cache", "_precond_lt", "_precond_logdet_cache", "_piv_chol_self", "_constant_diag", "_noise"):
+                            if a_ in twin.__dict__:
+                                setattr(twin, a_, None)
+                        twin.__dict__.pop("_default_preconditioner_cache", None)
+                        try:
+                            with env(st):
+                                run_query(twin, q, rhs)
+                            cache_related = True
+                        except Exception:
+                            cache_related = False
+                        env.tap.items = []
+                        if cache_related:
+                            fails.append((cell, f"step {si} settings={st}: raised {type(exc).__name__}: {str(exc)[:120]} but a fresh copy "
+                                                f"(and the same object with its caches cleared) answers"))
+                        else:
+                            chk.count("raises-independent-of-cache(other property)")
                     elif exc is None and fexc is not None:
                         chk.count("fresh-raises-history-answers")
                     else:
@@ -856,8 +900,10 @@ class Runner:
                 chk.count("q:" + q[0])
                 if modelled:
                     mlines.append(q_line(q, st, n))
-                    mexp.append((" ".join(k for k in keyset(op) if key_name(k) != "size") or "-") + " ; "
-                                + ("*" if q[0] in STAR else (",".join(logs) or "-")) + " ; " + ("tri" if obs.get("root_tri") else "-"))
+                    ko = model_profile(op) in KEYS_ONLY
+                    mexp.append((" ".join(k for k in keyset(op) if key_name(k) not in UNMODELLED_NAMES) or "-") + " ; "
+                                + ("*" if (ko or q[0] in STAR) else (",".join(logs) or "-")) + " ; "
+                                + ("*" if ko else ("tri" if obs.get("root_tri") else "-")))
             elif step[0] == "d":
                 d = step[1]
                 if (d[0] == "index_batch" and A.dim() <= 2) or (d[0] == "cat_rows" and A.dim() != 2) or (d[0] == "index" and n <= 2):
@@ -915,10 +961,10 @@ class Runner:
                     lineage = fr["lineage"] + ">" + lineage    # consequences of a transplant stay attributable to it
                 chk.count("d:" + d[0])
                 with env(st):
-                    chk_op = deep_fresh(new) if new is not op else op
+                    chk_op = deep_fresh(new)     # never densify the live object: observing must not write its cache
                     ok, msg = close(chk_op.to_dense(), newA, 1e-9)
                 env.tap.items = []
-                tainted = fr["tainted"]
+                tainted = fr["tainted"] or getattr(spec, "inconsistent", False)
                 if not ok:
                     # a cache-free copy of the derived operator already denotes the wrong matrix: the derivation itself is
                     # wrong (C02/C14 territory, e.g. Chol(upper) losing `upper`), not the caches -> not judged here
@@ -942,8 +988,8 @@ class Runner:
                 if modelled and new is not op:
                     prof2 = model_profile(new)
                     mlines.append(f"d {sline} {d[0]} {prof2 or 'opaque'} {newA.shape[-1]}")
-                    mexp.append(("P " + (" ".join(k for k in keyset(op) if key_name(k) != "size") or "-") + " ; N "
-                                 + (" ".join(k for k in keyset(new) if key_name(k) != "size") or "-") + " ; *"))
+                    mexp.append(("P " + (" ".join(k for k in keyset(op) if key_name(k) not in UNMODELLED_NAMES) or "-") + " ; N "
+                                 + (" ".join(k for k in keyset(new) if key_name(k) not in UNMODELLED_NAMES) or "-") + " ; *"))
                     if prof2 is None:
                         modelled = False
         if record:
